@@ -42,6 +42,10 @@ pub fn spec_for(seed: u64, index: u64) -> SysSpec {
             }
         }
     }
+    // array-typed inputs (read, exported, written by a named store node)
+    if index % 4 == 1 {
+        sysgen::add_array_io(&mut spec, index / 4);
+    }
     spec
 }
 
